@@ -450,6 +450,151 @@ fn history_strategy_inner(max_ops: usize) -> BoxedStrategy<DictCase> {
 }
 
 // ------------------------------------------------------------------------------------------------
+// the JS import call: histories on the wasm-facing Linter
+
+/// Words an integration may import: the vocabulary above plus words the curated dictionary has
+/// (importing a known word must be harmless and the word must still come back from the export).
+const JS_EXTRA: &[&str] = &["hello", "Paris", "the", "KUBERNETES", "javascript", "o'clockish"];
+
+fn js_word(i: u8) -> &'static str {
+    let i = i as usize % (VOCAB.len() + JS_EXTRA.len());
+    if i < VOCAB.len() { VOCAB[i] } else { JS_EXTRA[i - VOCAB.len()] }
+}
+
+#[derive(Debug, Clone, Serialize, Deserialize, PartialEq, Eq, Hash)]
+pub enum JsOp {
+    Import(Vec<u8>),
+    /// lint a text that mentions these words (and a plain error that must stay reported)
+    Lint(Vec<u8>, bool),
+    /// what an integration does between sessions: export, construct a new Linter, import
+    Persist,
+}
+
+#[derive(Debug, Clone, Serialize, Deserialize, PartialEq, Eq, Hash)]
+pub struct JsCase {
+    pub ops: Vec<JsOp>,
+    pub dialect: u8,
+}
+
+fn js_dialect(d: u8) -> harper_wasm::Dialect {
+    match d % 4 {
+        0 => harper_wasm::Dialect::American,
+        1 => harper_wasm::Dialect::British,
+        2 => harper_wasm::Dialect::Australian,
+        _ => harper_wasm::Dialect::Canadian,
+    }
+}
+
+pub fn test_js_history(c: &JsCase, ctx: &mut CaseCtx) -> Result<(), String> {
+    use harper_wasm::{Language, Linter};
+    let mut linter = Linter::new(js_dialect(c.dialect));
+    let mut model: BTreeSet<String> = BTreeSet::new();
+    let (mut imports, mut persisted_after_import, mut lint_after_import) = (0, false, false);
+    // (span start, span end, kind, message) of everything that is not a spelling lint, and the
+    // spans of spelling lints; with the words flagged
+    let summarise = |lints: &[harper_wasm::Lint]| -> (Vec<String>, Vec<(usize, usize, String)>) {
+        let mut other = vec![];
+        let mut spelling = vec![];
+        for l in lints {
+            let sp = l.span();
+            if l.lint_kind() == "Spelling" {
+                spelling.push((sp.start, sp.end, l.get_problem_text()));
+            } else {
+                other.push(format!("{}..{} {} {}", sp.start, sp.end, l.lint_kind(), l.message()));
+            }
+        }
+        (other, spelling)
+    };
+    for (step, op) in c.ops.iter().enumerate() {
+        match op {
+            JsOp::Import(ws) => {
+                let words: Vec<String> = ws.iter().map(|w| js_word(*w).to_string()).collect();
+                linter.import_words(words.clone());
+                model.extend(words);
+                imports += 1;
+            }
+            JsOp::Persist => {
+                let exported = linter.export_words();
+                linter = Linter::new(js_dialect(c.dialect));
+                linter.import_words(exported);
+                if imports > 0 {
+                    persisted_after_import = true;
+                }
+            }
+            JsOp::Lint(ws, markdown) => {
+                let mut text = String::from("We like");
+                for w in ws {
+                    text.push(' ');
+                    text.push_str(js_word(*w));
+                    text.push_str(" and");
+                }
+                text.push_str(" an banana here.");
+                let language = if *markdown { Language::Markdown } else { Language::Plain };
+                let got = linter.lint(text.clone(), language);
+                let (other, spelling) = summarise(&got);
+                for (a, b, w) in &spelling {
+                    if model.contains(w) {
+                        return Err(format!(
+                            "step {step}: {w:?} was imported (imported so far: {model:?}) and is still reported as misspelt at {a}..{b} of {text:?}"
+                        ));
+                    }
+                }
+                // all other lints: what a linter that never imported anything reports, minus
+                // the spelling lints on imported words
+                let base = Linter::new(js_dialect(c.dialect)).lint(text.clone(), language);
+                let (base_other, base_spelling) = summarise(&base);
+                let expect: Vec<_> = base_spelling.into_iter().filter(|(_, _, w)| !model.contains(w)).collect();
+                if other != base_other || spelling != expect {
+                    return Err(format!(
+                        "step {step}: with {model:?} imported, linting {text:?} gives {other:?} + spelling {spelling:?}; a linter without imported words gives {base_other:?} + spelling {expect:?} (after removing imported words)"
+                    ));
+                }
+                if imports > 0 {
+                    lint_after_import = true;
+                }
+            }
+        }
+        let exported: BTreeSet<String> = linter.export_words().into_iter().collect();
+        if exported != model {
+            return Err(format!(
+                "step {step} ({op:?}): export_words returns {exported:?}, the words imported so far are {model:?}"
+            ));
+        }
+    }
+    if lint_after_import {
+        ctx.class("lint_after_import");
+    }
+    if persisted_after_import {
+        ctx.class("export_new_linter_import");
+    }
+    if model.iter().any(|w| JS_EXTRA.contains(&w.as_str()) || ["github", "linux", "monday", "iphone"].contains(&w.as_str())) {
+        ctx.class("imports_relative_of_curated_word");
+    }
+    if lint_after_import && imports > 1 {
+        ctx.nontrivial(c);
+    }
+    Ok(())
+}
+
+pub fn js_strategy() -> BoxedStrategy<JsCase> {
+    let n = (VOCAB.len() + JS_EXTRA.len()) as u8;
+    let words = move || proptest::collection::vec(0u8..n, 1..5);
+    (
+        proptest::collection::vec(
+            prop_oneof![
+                3 => words().prop_map(JsOp::Import),
+                4 => (words(), any::<bool>()).prop_map(|(w, m)| JsOp::Lint(w, m)),
+                1 => Just(JsOp::Persist),
+            ],
+            1..14,
+        ),
+        0u8..4,
+    )
+        .prop_map(|(ops, dialect)| JsCase { ops, dialect })
+        .boxed()
+}
+
+// ------------------------------------------------------------------------------------------------
 // finding sub-run: a case variant of an earlier word replaces the entry
 
 fn case_variant_subrun(run: &mut Run) {
@@ -839,7 +984,7 @@ pub fn test_write_failure(c: &CrashCase, ctx: &mut CaseCtx) -> Result<(), String
 
 pub fn run(run: &mut Run) {
     run.level = "fault_enumeration".into();
-    run.rule = "(a) LSP histories on the real harper-ls (sandboxed HOME/XDG, buffer = disk): 1-3 documents (plain, Markdown, Rust, Python) mentioning non-words from an 18-word vocabulary (ASCII, non-ASCII Latin, straight and curly apostrophes); ops AddToUserDict / AddToFileDict (word = text under a published spelling diagnostic, as a code action sends it), Change, Restart; after every step: added words are no longer reported in any subsequently checked text they apply to, all other diagnostics unchanged, a file-dictionary word does not leak to other files, the dictionary file (lines as a set) equals the model, a restart reproduces the diagnostics. (c) crash points: the save is recorded under strace; every prefix of the globally ordered file mutations, and every short write, is replayed in a file-system model (checked to reproduce the real final state) and must reload to the previous words or the previous words plus the new one. Non-trivial (a) = >=2 adds and (a restart or a second document); (c) = pre-state with >=2 words.".into();
+    run.rule = "(a) LSP histories on the real harper-ls (sandboxed HOME/XDG, buffer = disk): 1-3 documents (plain, Markdown, Rust, Python) mentioning non-words from an 18-word vocabulary (ASCII, non-ASCII Latin, straight and curly apostrophes); ops AddToUserDict / AddToFileDict (word = text under a published spelling diagnostic, as a code action sends it), Change, Restart; after every step: added words are no longer reported in any subsequently checked text they apply to, all other diagnostics unchanged, a file-dictionary word does not leak to other files, the dictionary file (lines as a set) equals the model, a restart reproduces the diagnostics. (c) crash points: the save is recorded under strace; every prefix of the globally ordered file mutations, and every short write, is replayed in a file-system model (checked to reproduce the real final state) and must reload to the previous words or the previous words plus the new one. (b) js_import_histories: histories of import_words / lint / persist (export_words, new Linter, import_words) on the wasm-facing Linter with the same vocabulary plus curated words and their re-capitalisations; after every step export_words equals the set imported so far, no imported word is reported as misspelt, and every other lint equals what a linter without imported words reports. (d) write_error_during_save: the server runs with RLIMIT_FSIZE at half the dictionary size (SIGXFSZ ignored) so that the rewrite fails part-way with EFBIG; the dictionary file must still hold every earlier word. Non-trivial (a) = >=2 adds and (a restart or a second document); (c) = pre-state with >=2 words.".into();
     run.threads = run.threads.min(8);
     case_variant_subrun(run);
     run.max_shrink_iters = 80;
@@ -872,6 +1017,10 @@ pub fn run(run: &mut Run) {
     run.threads = 4;
     run.enumerate("crash_point_enumeration", &cases, false, test_crash);
     run.threads = saved;
+    let n = run.n(1_500, 40_000);
+    run.prop("js_import_histories", n, js_strategy, test_js_history);
+    run.require_class("js_import_histories", "export_new_linter_import", (n / 10) as u64);
+    run.require_class("js_import_histories", "imports_relative_of_curated_word", (n / 4) as u64);
     let faults = vec![
         CrashCase { pre_words: 800, new_word: "frobnix".into(), user: true },
         CrashCase { pre_words: 300, new_word: "naïvetéx".into(), user: false },
@@ -888,7 +1037,10 @@ pub fn run(run: &mut Run) {
 
 pub fn replay(check: &str, case: Value, _run: &mut Run) -> Result<(), String> {
     let mut ctx = CaseCtx::default();
-    let r = if check == "write_error_during_save" {
+    let r = if check == "js_import_histories" {
+        let c: JsCase = serde_json::from_value(case).map_err(|e| e.to_string())?;
+        test_js_history(&c, &mut ctx)
+    } else if check == "write_error_during_save" {
         let c: CrashCase = serde_json::from_value(case).map_err(|e| e.to_string())?;
         test_write_failure(&c, &mut ctx)
     } else if check == "crash_point_enumeration" {
